@@ -94,12 +94,12 @@ func (l List) byteCode(srcsel int, fl flags.Pass, cr compResult) bytecode.Type {
 		return bytecode.EncodeSrc(srcsel, bytecode.AddrDS, ix)
 	}
 
-	instr := l.Elems[i].byteCode(0, fl.Data().Pass(), cr)
+	instr := l.Elems[i].byteCode(0, fl.Data().Pass(flags.WithOpDepth(0)), cr)
 	instr |= bytecode.New(bytecode.ARR) | bytecode.EncodeSrc(1, bytecode.AddrDS, ix)
 	*cr.CS = append(*cr.CS, instr)
 
 	for _, t := range l.Elems[i+1:] {
-		instr = t.byteCode(0, fl.Data().Pass(), cr)
+		instr = t.byteCode(0, fl.Data().Pass(flags.WithOpDepth(0)), cr)
 		instr |= bytecode.New(bytecode.ARR) | bytecode.EncodeSrc(1, bytecode.AddrStck, 0)
 		*cr.CS = append(*cr.CS, instr)
 	}
@@ -788,8 +788,8 @@ func (f For) byteCode(srcsel int, fl flags.Pass, cr compResult) bytecode.Type {
 }
 
 func (i IndexAt) byteCode(srcsel int, fl flags.Pass, cr compResult) bytecode.Type {
-	ary := i.Ary.byteCode(1, fl.Data().Pass(), cr)
-	at := i.At.byteCode(0, fl.Data().Pass(), cr)
+	ary := i.Ary.byteCode(1, fl.Data().Pass(flags.WithOpDepth(0)), cr)
+	at := i.At.byteCode(0, fl.Data().Pass(flags.WithOpDepth(0)), cr)
 	instr := bytecode.New(bytecode.IX1) | ary | at
 
 	*cr.CS = append(*cr.CS, instr)
